@@ -1,5 +1,5 @@
-"""C12 — generated code agrees with the dynamic interpreter internal/pure/onthefly (DESIGN.md §4 C12); TL1 part."""
-from checks import codec_common as cc
+"""C12 — generated code agrees with the dynamic interpreter internal/pure/onthefly (DESIGN.md §4 C12): TL1 and TL2."""
+from checks import codec_common as cc, codec_tl2 as t2
 from vlib.core import hx
 
 LEVEL = "translation_validation"
@@ -7,6 +7,53 @@ LEVEL = "translation_validation"
 # known finding: for duplicate dictionary keys generated code (Go map) keeps the LAST value, the interpreter keeps the FIRST
 DUP_KEY = "onthefly:dict-duplicate-key-keeps-first:t_dict_value.go"
 OTF_KEY = "onthefly:ReadTL1-no-length-sanity:t_array_value.go/t_dict_value.go"
+
+
+def tl2_phase(c, sc, model, rng, pre):
+    """TL2 half of the property: for the same value (decoded from the same TL1 bytes) both write identical TL2 bytes; both accept
+    the same TL2 byte strings and agree on what they decoded (observed through the re-written TL2 and TL1)."""
+    per = 8 if c.thorough else 3
+    g1 = cc.Gen1(sc, rng.fork(), big=True, huge=25 if c.thorough else 60)
+    # union constructors are not values of their own in the interpreter (its union value owns the variants; a constructor struct
+    # created on its own has no variant index on the wire), so they are compared through their unions only
+    items = [(inst, it) for inst, it in t2.tl2_items(sc) if it[3] and not inst.get("isUnionElement")]
+    x2 = []
+    for inst, it in items:
+        for boxed in (0, 1):
+            if inst["kind"] == "union" and not boxed:
+                continue
+            for _ in range(per):
+                x2.append(t2.x2_line(sc, inst, boxed, g1.value(inst["idx"], not boxed, [], 0)))
+    rg = c.tie("gen-vs-model-tl2w:" + sc.sid, x2, sc.impl, model, prefix=pre)
+    ro = c.tie("otf-vs-model-tl2w:" + sc.sid, x2, sc.otf, model, prefix=pre)
+    r2 = set()
+    by_idx = {inst["idx"]: inst for inst, _ in items}
+    for (l, a, _), (_, b, _) in zip(rg, ro):
+        if a != b:
+            c.oracle_fail(l, "generated code and dynamic interpreter write different TL2 (or TL1) bytes for the same value: "
+                             "generated %s, interpreter %s" % (a[:100], b[:100]), l)
+        for o in (a, b):
+            if o.startswith("ok "):
+                w2 = dict(p.split("=", 1) for p in o.split(" ") if "=" in p).get("w2")
+                if w2 and w2 not in ("panic", "werr") and not w2.startswith("!"):
+                    inst = by_idx[int(l.split(" ")[2])]
+                    bts = t2.unhex(w2)
+                    r2.add(t2.r2_line(sc, inst, bts))
+                    if len(bts) < 4096:
+                        r2.add(t2.r2_line(sc, inst, t2.mutate2(rng, bts)))
+                        r2.add(t2.r2_line(sc, inst, bts[:rng.below(len(bts) + 1)]))
+    g2 = t2.Gen2(sc, rng.fork(), big=c.thorough, huge=40 if c.thorough else 0)
+    for inst, it in items:
+        for _ in range(per):
+            v = g2.value(inst["idx"])
+            r2.add(t2.r2_line(sc, inst, g2.top(inst, v, t2.Style(rng.fork(), p=rng.choice([3, 6])) if rng.chance(1, 2) else None)))
+    r2 = sorted(r2)
+    rg = c.tie("gen-vs-model-tl2r:" + sc.sid, r2, sc.impl, model, prefix=pre)
+    ro = c.tie("otf-vs-model-tl2r:" + sc.sid, r2, sc.otf, model, prefix=pre)
+    for (l, a, _), (_, b, _) in zip(rg, ro):
+        if a != b:
+            c.oracle_fail(l, "generated code and dynamic interpreter disagree on a TL2 byte string: generated %s, interpreter %s"
+                          % (a[:100], b[:100]), l)
 
 
 def run(c):
@@ -72,5 +119,7 @@ def run(c):
         for t in c.tie_failures:
             if (t["line"] in otf_lines or t["line"] in dup_lines) and t["tie"].startswith("otf-vs-model"):
                 t["explained"] = True
+        if sc.tl2:
+            tl2_phase(c, sc, model, rng, pre)
     c.extra["rule"] = "same TL1 case lines served by generated code, by onthefly.CreateValue(instance) and by the Lean model; three-way comparison"
     c.extra["explanation"] = "three-way differential run"
